@@ -41,15 +41,15 @@ API = {
     ('bitvector::BitVectorMut', 'get_bits'): {1: 'window'},
     ('bitvector::rs_narrow::RSNarrow', 'get'): {1: 'index'},
     ('bitvector::rs_narrow::RSNarrow', 'rank1'): {1: 'prefix'},
-    ('bitvector::rs_narrow::RSNarrow', 'select1'): {1: 'occ'},
-    ('bitvector::rs_narrow::RSNarrow', 'select0'): {1: 'occ'},
+    ('bitvector::rs_narrow::RSNarrow', 'select1'): {1: 'occ1'},
+    ('bitvector::rs_narrow::RSNarrow', 'select0'): {1: 'occ0'},
     ('bitvector::rs_wide::RSWide', 'get'): {1: 'index'},
     ('bitvector::rs_wide::RSWide', 'rank1'): {1: 'prefix'},
-    ('bitvector::rs_wide::RSWide', 'select1'): {1: 'occ'},
-    ('bitvector::rs_wide::RSWide', 'select0'): {1: 'occ'},
+    ('bitvector::rs_wide::RSWide', 'select1'): {1: 'occ1'},
+    ('bitvector::rs_wide::RSWide', 'select0'): {1: 'occ0'},
     ('darray::DArray', 'get'): {1: 'index'},
-    ('darray::DArray', 'select1'): {1: 'occ'},
-    ('darray::DArray', 'select0'): {1: 'occ'},
+    ('darray::DArray', 'select1'): {1: 'occ1'},
+    ('darray::DArray', 'select0'): {1: 'occ0'},
 }
 
 # which properties an API entry serves
@@ -57,7 +57,7 @@ PROPS_OF_BASE = {
     'quadwt::QWaveletTree': ['C01', 'C04', 'C10'],
     'quadwt::huffqwt::HuffQWaveletTree': ['C02', 'C04', 'C10'],
     'binwt::WaveletTree': ['C03', 'C04', 'C10'],
-    'qvector::QVector': ['C13', 'C04', 'C10'],
+    'qvector::QVector': ['C13', 'C04', 'C10', 'C05'],
     'qvector::rs_qvector::RSQVector': ['C05', 'C04', 'C10'],
     'bitvector::BitVector': ['C08', 'C04', 'C10'],
     'bitvector::BitVectorMut': ['C08', 'C04', 'C10'],
@@ -322,14 +322,43 @@ def classify(cls, P, atoms, LEN, extra=None):
                     return 'ok', '%s %s %s and %s <= %s' % (show(P), startok, show(LEN), show(Q), show(rest)), shown
                 return 'violation', 'window bound `%s` rejects a read that ends exactly at the last bit (contract is `<=`)' % fmt_atom((op, a, b)), shown
         return 'violation', 'no dominating test that %s + %s stays within %s' % (show(P), show(Q), show(LEN)), shown
-    if cls == 'occ':
+    if cls in ('occ', 'occ1', 'occ0'):
         for op, a, b in rel:
             if a == P and not mentions(b, P) and op in ('<', '<='):
                 if op == '<':
+                    k = _count_kind(b)
+                    want = {'occ1': 'ones', 'occ0': 'zeros'}.get(cls)
+                    if want and k and k != want:
+                        return 'violation', 'occurrence index of a select%s is bounded by the number of %s (`%s`): wrong operand, valid occurrences are rejected / missing ones accepted' % (
+                            cls[-1], k, show(b)[:50]), shown
                     return 'ok', fmt_atom((op, a, b)), shown
                 return 'violation', 'occurrence index bound is `<=` (one past the last occurrence accepted)', shown
         return 'violation', 'no dominating strict bound on the occurrence index %s' % show(P), shown
     return 'note', 'unknown class ' + cls, shown
+
+
+def _count_kind(t, depth=0):
+    """'ones' / 'zeros' when the term is recognisably the number of ones (zeros): a call or field whose name says so, or
+    `len - <the other kind>`; None when it cannot be told."""
+    if not isinstance(t, tuple) or not t or depth > 6:
+        return None
+    t = strip_casts(t)
+    if t[:2] == ('bin', 'Sub'):
+        k = _count_kind(t[3], depth + 1)
+        return {'ones': 'zeros', 'zeros': 'ones'}.get(k)
+    names = []
+    for x in subterms(t):
+        if isinstance(x, tuple) and x[:1] == ('call',):
+            names.append(x[1].split('::')[-1])
+        if isinstance(x, tuple) and x[:1] == ('field',):
+            names.append(x[2])
+    has1 = any('ones' in n for n in names)
+    has0 = any('zero' in n for n in names)
+    if has1 and not has0:
+        return 'ones'
+    if has0 and not has1:
+        return 'zeros'
+    return None
 
 
 def _narrowing_of(t, P):
